@@ -591,6 +591,10 @@ enum Kind {
     /// `$INCLUDE f a.z.` (an entry, not a record): path plain / quoted /
     /// escaped, origin argument relative / absolute.
     Incl,
+    /// TXT whose strings contain parentheses (`(`, `a) b`, `)(`), quoted,
+    /// `\X`-escaped or `\DDD`-escaped: these parentheses are data, not
+    /// grouping (space P only).
+    TxtP,
 }
 
 impl Kind {
@@ -606,6 +610,7 @@ impl Kind {
             Kind::Nsec => "NSEC",
             Kind::Nsec3 => "NSEC3",
             Kind::Svcb => "SVCB",
+            Kind::TxtP => "TXT-parens",
         }
     }
     fn rtype(self) -> u16 {
@@ -619,6 +624,7 @@ impl Kind {
             Kind::Nsec => 47,
             Kind::Nsec3 => 50,
             Kind::Svcb => 64,
+            Kind::TxtP => 16,
         }
     }
     fn mnemonic(self) -> &'static str {
@@ -632,6 +638,7 @@ impl Kind {
             Kind::Nsec => "NSEC",
             Kind::Nsec3 => "NSEC3",
             Kind::Svcb => "SVCB",
+            Kind::TxtP => "TXT",
         }
     }
     fn forms(self) -> usize {
@@ -646,6 +653,7 @@ impl Kind {
             Kind::Nsec => 2,
             Kind::Nsec3 => 2,
             Kind::Svcb => 2,
+            Kind::TxtP => 3,
         }
     }
 }
@@ -710,6 +718,14 @@ fn rdata_wire(k: Kind) -> Vec<u8> {
             let mut v = vec![0, 1];
             v.extend(name_wire(&["m", "z"]));
             v.extend_from_slice(&[0, 1, 0, 3, 2, b'h', b'2', 0, 3, 0, 2, 0x01, 0xbb]);
+            v
+        }
+        Kind::TxtP => {
+            let mut v = Vec::new();
+            for s in ["(", "a) b", ")("] {
+                v.push(s.len() as u8);
+                v.extend_from_slice(s.as_bytes());
+            }
             v
         }
     }
@@ -791,6 +807,11 @@ fn data_tokens(k: Kind, f: usize, origin: &[&str], rel: bool) -> Vec<String> {
             ["alpn=h2", "alpn=\"h2\""][f].into(),
             ["port=443", "port=\"443\""][f].into(),
         ],
+        Kind::TxtP => match f {
+            0 => vec!["\"(\"".into(), "\"a) b\"".into(), "\")(\"".into()],
+            1 => vec!["\\(".into(), "a\\)\\ b".into(), "\\)\\(".into()],
+            _ => vec!["\\040".into(), "a\\041\\032b".into(), "\\041\\040".into()],
+        },
         Kind::MxO => vec!["10".into(), if f == 1 && origin == ["z"] { "@".into() } else { "z.".into() }],
         Kind::Unk => {
             if f == 0 {
@@ -1677,6 +1698,667 @@ fn run_l2(sh: &Shared, lc: &LayoutCounters, n: usize, kinds: &[Kind], per_case_w
         lc.renderings.fetch_add(admissible, AO::Relaxed);
         lc.inadmissible.fetch_add(pruned, AO::Relaxed);
         l.counts.insert(format!("{label}.renderings"), admissible);
+        if !per_case_wd {
+            sh.wd.leave();
+        }
+        sh.absorb(l);
+    });
+}
+
+// ---------------- space P: parenthesised groups (nesting / grouping) -----
+//
+// RFC 1035 section 5.1: "Parentheses are used to group data that crosses a
+// line boundary.  In effect, line terminations are not recognized within
+// parentheses."  Nothing else is said about them: they carry no data, they
+// may open and close at any token boundary of an entry, there may be several
+// of them one after the other and one within the other, and a parenthesis
+// inside a quoted string, after a backslash or inside a comment is not a
+// parenthesis.  Hence, for one logical record (token list t0..tn-1):
+//
+// * structure: every family of <= 3 groups (i, j) = "`(` before token i, `)`
+//   before token j" (i == j: an empty group), any two of them disjoint or
+//   nested (depth <= 3), from the first token boundary after the owner field
+//   (after the leading blank when the owner is inherited, i.e. also before
+//   the class / TTL / type tokens) to the boundary after the last token;
+// * filling: all on one line; no white space next to any parenthesis; every
+//   position inside a group (depth >= 1) -- including the positions between
+//   an inner `)` and the outer `)` -- filled with one of 7 line-crossing
+//   fillers, one position at a time and all positions at once.
+//
+// Oracle: the reader returns exactly the logical records (context record,
+// the record, sentinel).
+//
+// Damage part: one `(` or one `)` too many at every position of every such
+// structure (<= 2 groups), on one line and with line feeds inside the
+// groups.  The expectation is written from the text above by counting depth
+// in the harness: a `)` at depth 0 and an end of file at depth > 0 are not
+// part of the format, so the reader must end with an error (position inside
+// the input, no panic, no hang), and must not return more entries than there
+// are complete logical lines before the damage; in particular, when the
+// damage is on the first logical line of the entry, nothing of the damaged
+// entry and nothing after it is returned.
+
+#[derive(Clone, Copy, PartialEq, Eq, Debug)]
+enum PItem {
+    Open,
+    Close,
+    Tok(usize),
+}
+
+const P_FILL: [&str; 8] = [" ", "\n", " ;c\n", "\n\n", "\n ; ) ( \"\n\t", "\r\n", ";c\n", "\t\n "];
+const P_FILL_NAMES: [&str; 8] = ["space", "lf", "comment-lf", "blank-line", "comment-line-with-parens-and-quote", "crlf", "attached-comment-lf", "tab-lf-space"];
+
+/// (kind, data forms used)
+const P_KINDS: [(Kind, &[usize]); 11] = [
+    (Kind::A, &[0]),
+    (Kind::Txt, &[0, 4]),
+    (Kind::TxtP, &[0, 1, 2]),
+    (Kind::Soa, &[0]),
+    (Kind::Mx, &[0]),
+    (Kind::Unk, &[1]),
+    (Kind::Incl, &[0, 1]),
+    (Kind::Nsec, &[0]),
+    (Kind::Nsec3, &[0]),
+    (Kind::Svcb, &[0, 1]),
+    (Kind::MxO, &[1]),
+];
+/// (owner form index into OWNER_FORMS, class/TTL form): inherited owner with
+/// class and TTL (groups may open before the class, the TTL and the type),
+/// relative owner with TTL and class, relative owner with neither.
+const P_HEADS: [(usize, usize); 3] = [(4, 0), (1, 1), (1, 4)];
+
+/// A concrete rendering of the record under test: items and the separators
+/// between them (`seps[k]` stands between `items[k]` and `items[k + 1]`).
+#[derive(Clone, PartialEq, Eq, Debug)]
+struct PCase {
+    items: Vec<PItem>,
+    seps: Vec<&'static str>,
+}
+
+fn p_is_paren(i: PItem) -> bool {
+    !matches!(i, PItem::Tok(_))
+}
+
+fn p_laminar(groups: &[(usize, usize)]) -> bool {
+    for x in 0..groups.len() {
+        for y in x + 1..groups.len() {
+            let ((a, b), (c, d)) = (groups[x], groups[y]);
+            // sorted: a <= c; crossing iff a < c < b < d
+            if a < c && c < b && b < d {
+                return false;
+            }
+        }
+    }
+    true
+}
+
+/// Items of tokens 0..n with the given (sorted, laminar) groups.  At one
+/// token boundary: closing parentheses first, then empty groups, then
+/// opening parentheses.
+fn p_items(n: usize, groups: &[(usize, usize)]) -> Vec<PItem> {
+    let mut v = Vec::new();
+    for g in 0..=n {
+        for &(i, j) in groups {
+            if j == g && i < g {
+                v.push(PItem::Close);
+            }
+        }
+        for &(i, j) in groups {
+            if i == g && j == g {
+                v.push(PItem::Open);
+                v.push(PItem::Close);
+            }
+        }
+        for &(i, j) in groups {
+            if i == g && j > g {
+                v.push(PItem::Open);
+            }
+        }
+        if g < n {
+            v.push(PItem::Tok(g));
+        }
+    }
+    v
+}
+
+/// Depth after each item; None when a `)` comes at depth 0.
+fn p_depths(items: &[PItem]) -> Option<Vec<usize>> {
+    let mut d = 0usize;
+    let mut v = Vec::with_capacity(items.len());
+    for it in items {
+        match it {
+            PItem::Open => d += 1,
+            PItem::Close => d = d.checked_sub(1)?,
+            PItem::Tok(_) => {}
+        }
+        v.push(d);
+    }
+    Some(v)
+}
+
+/// A rendering of a well-formed entry: balanced, tokens separated, no line
+/// feed outside of a group.
+fn p_valid(c: &PCase) -> bool {
+    let Some(d) = p_depths(&c.items) else { return false };
+    if d.last().copied().unwrap_or(0) != 0 || c.seps.len() + 1 != c.items.len() {
+        return false;
+    }
+    for (k, s) in c.seps.iter().enumerate() {
+        if s.contains('\n') && d[k] == 0 {
+            return false;
+        }
+        if s.is_empty() && !p_is_paren(c.items[k]) && !p_is_paren(c.items[k + 1]) {
+            return false;
+        }
+    }
+    true
+}
+
+#[derive(Clone, Copy, PartialEq, Eq, Debug)]
+enum PMode {
+    Flat,
+    Tight,
+    All(usize),
+    One(usize, usize),
+    Two(usize, usize, usize, usize),
+}
+
+fn p_seps(items: &[PItem], depths: &[usize], mode: PMode) -> Vec<&'static str> {
+    (0..items.len().saturating_sub(1))
+        .map(|k| {
+            let inside = depths[k] >= 1;
+            match mode {
+                PMode::Flat => " ",
+                PMode::Tight => {
+                    if p_is_paren(items[k]) || p_is_paren(items[k + 1]) {
+                        ""
+                    } else {
+                        " "
+                    }
+                }
+                PMode::All(f) => {
+                    if inside {
+                        P_FILL[f]
+                    } else {
+                        " "
+                    }
+                }
+                PMode::One(p, f) => {
+                    if k == p {
+                        P_FILL[f]
+                    } else {
+                        " "
+                    }
+                }
+                PMode::Two(p, f, q, g) => {
+                    if k == p {
+                        P_FILL[f]
+                    } else if k == q {
+                        P_FILL[g]
+                    } else {
+                        " "
+                    }
+                }
+            }
+        })
+        .collect()
+}
+
+fn p_line(h: &L1Head, c: &PCase) -> String {
+    let mut s = h.indent.clone();
+    for (k, it) in c.items.iter().enumerate() {
+        match it {
+            PItem::Open => s.push('('),
+            PItem::Close => s.push(')'),
+            PItem::Tok(i) => s.push_str(&h.toks[*i]),
+        }
+        if k < c.seps.len() {
+            s.push_str(c.seps[k]);
+        }
+    }
+    s
+}
+
+const P_SENTINEL: &str = "s IN 60 A 192.0.2.7\n";
+
+fn p_text(h: &L1Head, c: &PCase) -> String {
+    format!("{}{}\n{}", h.text, p_line(h, c), P_SENTINEL)
+}
+
+fn p_expected(h: &L1Head) -> Vec<Vec<u8>> {
+    let mut e = h.expected.clone();
+    e.push(rec_wire(&["s", "z"], 1, 1, 60, &[192, 0, 2, 7]));
+    e
+}
+
+fn p_head(ki: usize, form: usize, hi: usize) -> Option<L1Head> {
+    let kind = P_KINDS[ki].0;
+    let (of, ct) = if kind == Kind::Incl { (0, 0) } else { P_HEADS[hi] };
+    if kind == Kind::Incl && hi != 0 {
+        return None;
+    }
+    l1_head(1, kind, &[0, of, ct, form])
+}
+
+/// First token boundary at which a parenthesis may stand: after the owner
+/// (a directive name) when the line starts with one, else after the blank.
+fn p_first_gap(h: &L1Head) -> usize {
+    if h.roles[0] == "owner" || h.toks[0].starts_with('$') {
+        1
+    } else {
+        0
+    }
+}
+
+fn p_intervals(h: &L1Head) -> Vec<(usize, usize)> {
+    let n = h.toks.len();
+    let mut v = Vec::new();
+    for i in p_first_gap(h)..=n {
+        for j in i..=n {
+            v.push((i, j));
+        }
+    }
+    v
+}
+
+/// Remove item `x`, merging the separators around it.
+fn p_remove_item(c: &mut PCase, x: usize) {
+    let n = c.items.len();
+    if n == 1 {
+        c.items.clear();
+        return;
+    }
+    if x == 0 {
+        c.seps.remove(0);
+    } else if x == n - 1 {
+        c.seps.remove(x - 1);
+    } else {
+        let (l, r) = (c.seps[x - 1], c.seps[x]);
+        let special = |s: &str| s.contains('\n') || s.contains(';');
+        let m = if special(l) {
+            l
+        } else if special(r) {
+            r
+        } else {
+            " "
+        };
+        c.seps[x - 1] = m;
+        c.seps.remove(x);
+    }
+    c.items.remove(x);
+}
+
+fn p_match_close(items: &[PItem], open: usize) -> Option<usize> {
+    let mut d = 0usize;
+    for (k, it) in items.iter().enumerate().skip(open) {
+        match it {
+            PItem::Open => d += 1,
+            PItem::Close => {
+                d -= 1;
+                if d == 0 {
+                    return Some(k);
+                }
+            }
+            _ => {}
+        }
+    }
+    None
+}
+
+/// Outcome class without the reader's wording of a rejection.
+fn p_class(class: &str) -> String {
+    if class.starts_with("rejected:") {
+        "rejected".into()
+    } else {
+        class.to_string()
+    }
+}
+
+/// Greedy reduction of a failing rendering: drop whole groups, then turn
+/// fillers into a plain space / a plain line feed, as long as the rendering
+/// stays well formed and the outcome class stays the same.
+fn p_minimise(h: &L1Head, expected: &[Vec<u8>], case: &PCase, class: &str) -> PCase {
+    let same = |c: &PCase| p_valid(c) && layout_verdict(&p_text(h, c), expected).map(|v| p_class(&v.0)).as_deref() == Some(class);
+    let mut cur = case.clone();
+    loop {
+        let mut changed = false;
+        let mut x = 0;
+        while x < cur.items.len() {
+            if cur.items[x] == PItem::Open {
+                if let Some(y) = p_match_close(&cur.items, x) {
+                    let mut t = cur.clone();
+                    p_remove_item(&mut t, y);
+                    p_remove_item(&mut t, x);
+                    if same(&t) {
+                        cur = t;
+                        changed = true;
+                        continue;
+                    }
+                }
+            }
+            x += 1;
+        }
+        for k in 0..cur.seps.len() {
+            for simpler in [" ", "\n"] {
+                if cur.seps[k] == simpler || cur.seps[k] == " " || (simpler == "\n" && !cur.seps[k].contains('\n')) {
+                    continue;
+                }
+                let mut t = cur.clone();
+                t.seps[k] = simpler;
+                if same(&t) {
+                    cur = t;
+                    changed = true;
+                    break;
+                }
+            }
+        }
+        if !changed {
+            return cur;
+        }
+    }
+}
+
+/// Parentheses and non-space separators of a rendering, tokens left out
+/// (`~` = no white space at this side of a parenthesis).
+fn p_skeleton(c: &PCase) -> String {
+    let mut s = String::new();
+    for (k, it) in c.items.iter().enumerate() {
+        match it {
+            PItem::Open => s.push('('),
+            PItem::Close => s.push(')'),
+            PItem::Tok(_) => {}
+        }
+        if let Some(sep) = c.seps.get(k) {
+            if sep.is_empty() {
+                s.push('~');
+            } else if *sep != " " {
+                let name = P_FILL.iter().position(|f| f == sep).map(|i| P_FILL_NAMES[i]).unwrap_or("?");
+                s.push_str(&format!("<{name}>"));
+            }
+        }
+    }
+    s
+}
+
+fn p_role_before(h: &L1Head, c: &PCase, x: usize) -> &'static str {
+    c.items[..x]
+        .iter()
+        .rev()
+        .find_map(|it| match it {
+            PItem::Tok(i) => Some(h.roles[*i]),
+            _ => None,
+        })
+        .unwrap_or("line-start")
+}
+
+fn p_report(sh: &Shared, h: &L1Head, expected: &[Vec<u8>], ki: usize, form: usize, hi: usize, case: &PCase, class: &str, what: &str) {
+    let min = p_minimise(h, expected, case, class);
+    let mut shape = p_skeleton(&min);
+    let opens: Vec<usize> = (0..min.items.len()).filter(|&x| min.items[x] == PItem::Open).collect();
+    if opens.len() == 1 {
+        let y = p_match_close(&min.items, opens[0]).unwrap_or(opens[0]);
+        shape.push_str(&format!(",open-after={},close-after={}", p_role_before(h, &min, opens[0]), p_role_before(h, &min, y)));
+    }
+    let kind = P_KINDS[ki].0;
+    let sig = format!("C07|layout|P|kind={}|groups={shape}|{class}", kind.name());
+    if !first_in_thread(&sig) {
+        return;
+    }
+    let text = p_text(h, case);
+    let min_text = p_text(h, &min);
+    sh.ctx.violation(
+        &sig,
+        &format!("{what}; minimal rendering {min_text:?}"),
+        json!({"part": "layout", "text": text, "expected_hex": expected.iter().map(|e| hex(e)).collect::<Vec<_>>(),
+               "minimal_text": min_text, "space": "P", "kind": kind.name(), "kind_index": ki, "form": form, "head": hi}),
+    );
+}
+
+/// All groupings of <= `kmax` groups whose smallest group is `iv[a]`
+/// (`a == None`: the rendering without groups).
+fn p_structures(iv: &[(usize, usize)], a: Option<usize>, kmax: usize, mut f: impl FnMut(&[(usize, usize)])) {
+    let Some(a) = a else {
+        f(&[]);
+        return;
+    };
+    if kmax >= 1 {
+        f(&[iv[a]]);
+    }
+    if kmax >= 2 {
+        for b in a..iv.len() {
+            let g2 = [iv[a], iv[b]];
+            if !p_laminar(&g2) {
+                continue;
+            }
+            f(&g2);
+            if kmax >= 3 {
+                for c in b..iv.len() {
+                    let g3 = [iv[a], iv[b], iv[c]];
+                    if p_laminar(&g3) {
+                        f(&g3);
+                    }
+                }
+            }
+        }
+    }
+}
+
+struct PCounts {
+    evals: AtomicU64,
+    failing: AtomicU64,
+    damage: AtomicU64,
+    damage_failing: AtomicU64,
+}
+
+/// The depth count of the damaged line, done on the items: what a `(` or a
+/// `)` too many means according to RFC 1035 5.1.
+struct PDamage {
+    /// complete logical lines (line feeds at depth 0) before the damage
+    lines_before: usize,
+    cause: &'static str,
+}
+
+fn p_damage_meaning(c: &PCase) -> PDamage {
+    let mut d = 0usize;
+    let mut lines = 0usize;
+    for (k, it) in c.items.iter().enumerate() {
+        match it {
+            PItem::Open => d += 1,
+            PItem::Close => {
+                if d == 0 {
+                    return PDamage { lines_before: lines, cause: if lines == 0 { "close-at-depth-0-on-first-logical-line" } else { "close-at-depth-0-after-a-logical-line-end" } };
+                }
+                d -= 1;
+            }
+            PItem::Tok(_) => {}
+        }
+        if d == 0 && c.seps.get(k).map_or(false, |s| s.contains('\n')) {
+            lines += 1;
+        }
+    }
+    // the line feed that ends the line and everything after it is inside a group
+    PDamage { lines_before: lines, cause: if lines == 0 { "end-of-file-inside-a-group-opened-on-first-logical-line" } else { "end-of-file-inside-a-group-opened-after-a-logical-line-end" } }
+}
+
+/// `before`: entries of the logical file before the damaged one.
+fn p_damage_verdict(text: &str, expected: &[Vec<u8>], before: usize, lines_before: usize) -> Option<(String, String)> {
+    let ex = examine(text.as_bytes(), true);
+    if let Some((class, what)) = ex.viol {
+        return Some((format!("totality:{class}"), what));
+    }
+    let a = ex.a?;
+    if !matches!(a.end, End::Err(_)) {
+        return Some((
+            "no-error".into(),
+            format!("the reader reached the end of the file without an error and returned {} entries (the well-formed file has {})", a.entries.len(), expected.len()),
+        ));
+    }
+    if a.entries.len() > before + lines_before {
+        return Some((
+            "entries-beyond-damage".into(),
+            format!("{} entries returned before the error, but only {} logical line(s) end before the damage", a.entries.len(), before + lines_before),
+        ));
+    }
+    if a.entries.iter().zip(expected).take(before).any(|(g, e)| g != e) {
+        return Some(("entries-before-damage-differ".into(), "an entry before the damaged one differs from the logical file".into()));
+    }
+    None
+}
+
+fn p_damage_case(sh: &Shared, h: &L1Head, expected: &[Vec<u8>], ki: usize, form: usize, hi: usize, c: &PCase, extra: PItem, pc: &PCounts, l: &mut Local) {
+    let text = p_text(h, c);
+    let m = p_damage_meaning(c);
+    l.evals += 1;
+    pc.damage.fetch_add(1, AO::Relaxed);
+    l.bump(&format!("layout.P.damage.{}", m.cause));
+    // entries before the damaged one: h.expected.len() - 1
+    let viol = p_damage_verdict(&text, expected, h.expected.len() - 1, m.lines_before);
+    if let Some((class, what)) = viol {
+        pc.damage_failing.fetch_add(1, AO::Relaxed);
+        l.bump(&format!("layout.P.damage.failing.{class}"));
+        let sig = format!("C07|layout|P-damage|extra={}|{}|{}", if extra == PItem::Open { "open" } else { "close" }, m.cause, digits_to_hash(&class));
+        if first_in_thread(&sig) {
+            sh.ctx.violation(
+                &sig,
+                &format!("{what}; input {text:?}"),
+                json!({"part": "paren-damage", "text": text, "kind": P_KINDS[ki].0.name(), "kind_index": ki, "form": form, "head": hi,
+                       "lines_before": m.lines_before, "entries_before": h.expected.len() - 1, "cause": m.cause, "extra": if extra == PItem::Open { "open" } else { "close" },
+                       "expected_hex": expected.iter().map(|e| hex(e)).collect::<Vec<_>>()}),
+            );
+        }
+    }
+}
+
+fn run_p(sh: &Shared, lc: &LayoutCounters, pc: &PCounts, quick: bool, per_case_wd: bool, only: Option<(usize, usize, usize, Option<usize>)>) {
+    // work items: kind x data form x head x smallest group
+    let mut work: Vec<(usize, usize, usize, Option<usize>)> = Vec::new();
+    for (ki, (_, forms)) in P_KINDS.iter().enumerate() {
+        for &form in forms.iter() {
+            for hi in 0..P_HEADS.len() {
+                if let Some(h) = p_head(ki, form, hi) {
+                    work.push((ki, form, hi, None));
+                    for a in 0..p_intervals(&h).len() {
+                        work.push((ki, form, hi, Some(a)));
+                    }
+                }
+            }
+        }
+    }
+    if let Some(o) = only {
+        work.retain(|w| *w == o);
+    }
+    work.par_iter().for_each(|&(ki, form, hi, a)| {
+        let Some(h) = p_head(ki, form, hi) else { return };
+        let kind = P_KINDS[ki].0;
+        let expected = p_expected(&h);
+        let iv = p_intervals(&h);
+        let n = h.toks.len();
+        let gaps = n + 1 - p_first_gap(&h);
+        if !per_case_wd {
+            sh.wd.enter(|| json!({"part": "layout-chunk", "space": "P", "kind_index": ki, "form": form, "head": hi, "first_group": a}));
+        }
+        let mut l = Local::default();
+        let mut n_relation = 0u64;
+        // three groups: everywhere in the thorough tier, in the quick tier for
+        // entries with at most 8 token boundaries (longer ones: two groups)
+        let kmax = if !quick || gaps <= 8 { 3 } else { 2 };
+        p_structures(&iv, a, kmax, |groups| {
+            let items = p_items(n, groups);
+            let depths = p_depths(&items).expect("laminar groups are balanced");
+            let maxd = depths.iter().copied().max().unwrap_or(0);
+            l.bump(&format!("layout.P.structures.groups{}.depth{maxd}", groups.len()));
+            let inside: Vec<usize> = (0..items.len().saturating_sub(1)).filter(|&k| depths[k] >= 1).collect();
+            let mut modes = vec![PMode::Flat];
+            if !groups.is_empty() {
+                modes.push(PMode::Tight);
+                for f in 1..P_FILL.len() {
+                    modes.push(PMode::All(f));
+                }
+                // one position at a time: every filler for <= 2 groups, the
+                // plain line feed for three groups (quick tier)
+                let fmax = if groups.len() <= 2 || !quick { P_FILL.len() } else { 2 };
+                for &p in &inside {
+                    for f in 1..fmax {
+                        modes.push(PMode::One(p, f));
+                    }
+                }
+                if !quick && groups.len() <= 2 {
+                    for (pi, &p) in inside.iter().enumerate() {
+                        for &q in &inside[pi + 1..] {
+                            for f in [1, 2] {
+                                for g in [1, 2] {
+                                    modes.push(PMode::Two(p, f, q, g));
+                                }
+                            }
+                        }
+                    }
+                }
+            }
+            for mode in modes {
+                let case = PCase { items: items.clone(), seps: p_seps(&items, &depths, mode) };
+                assert!(p_valid(&case), "space P generated an ill-formed rendering");
+                let text = p_text(&h, &case);
+                if per_case_wd {
+                    sh.wd.enter(|| json!({"part": "layout", "text": text, "expected_hex": expected.iter().map(|e| hex(e)).collect::<Vec<_>>()}));
+                }
+                l.evals += 1;
+                n_relation += 1;
+                if mode == PMode::Flat {
+                    l.nontrivial.push(fnv(text.as_bytes()));
+                }
+                if let Some((class, what)) = layout_verdict(&text, &expected) {
+                    pc.failing.fetch_add(1, AO::Relaxed);
+                    lc.failing.fetch_add(1, AO::Relaxed);
+                    l.bump(&format!("layout.P.failing.{class}"));
+                    p_report(sh, &h, &expected, ki, form, hi, &case, &p_class(&class), &what);
+                }
+                if per_case_wd {
+                    sh.wd.leave();
+                }
+            }
+            // damage: one parenthesis too many at every position
+            if groups.len() <= 2 && (groups.len() <= 1 || !quick || gaps <= 8) {
+                let lo = items.iter().position(|it| *it == PItem::Tok(p_first_gap(&h))).unwrap_or(items.len()).min(items.iter().position(|it| p_is_paren(*it)).unwrap_or(items.len()));
+                for fill in [PMode::Flat, PMode::All(1)] {
+                    if fill != PMode::Flat && groups.is_empty() {
+                        continue;
+                    }
+                    let seps = p_seps(&items, &depths, fill);
+                    for q in lo..=items.len() {
+                        for extra in [PItem::Open, PItem::Close] {
+                            // which neighbour keeps the original separator
+                            for side in 0..2 {
+                                let mut c = PCase { items: items.clone(), seps: seps.clone() };
+                                c.items.insert(q, extra);
+                                if q == 0 {
+                                    c.seps.insert(0, " ");
+                                } else if q == items.len() {
+                                    c.seps.push(" ");
+                                } else if side == 0 {
+                                    // original separator stays before the extra parenthesis
+                                    c.seps.insert(q, " ");
+                                } else {
+                                    c.seps.insert(q - 1, " ");
+                                }
+                                if side == 1 && (q == 0 || q == items.len() || seps[q - 1] == " ") {
+                                    continue; // same text as side 0
+                                }
+                                if per_case_wd {
+                                    sh.wd.enter(|| json!({"part": "paren-damage", "text": p_text(&h, &c)}));
+                                }
+                                p_damage_case(sh, &h, &expected, ki, form, hi, &c, extra, pc, &mut l);
+                                if per_case_wd {
+                                    sh.wd.leave();
+                                }
+                            }
+                        }
+                    }
+                }
+            }
+        });
+        pc.evals.fetch_add(n_relation, AO::Relaxed);
+        lc.renderings.fetch_add(n_relation, AO::Relaxed);
+        l.counts.insert(format!("layout.P.renderings.kind.{}", kind.name()), n_relation);
         if !per_case_wd {
             sh.wd.leave();
         }
@@ -3281,6 +3963,40 @@ fn replay(sh: &Shared, lc: &LayoutCounters, case: &Value) {
                 }
             }
         }
+        "paren-damage" => {
+            let text = case["text"].as_str().unwrap_or("").to_string();
+            let expected: Vec<Vec<u8>> = case["expected_hex"].as_array().map(|a| a.iter().map(|h| unhex(h.as_str().unwrap_or(""))).collect()).unwrap_or_default();
+            println!("input: {text:?}");
+            sh.wd.enter(|| case.clone());
+            println!("reader: {:?}", guard(|| read_all(reader_a(text.as_bytes()), text.len() + 2)));
+            let v = p_damage_verdict(&text, &expected, case["entries_before"].as_u64().unwrap_or(1) as usize, case["lines_before"].as_u64().unwrap_or(0) as usize);
+            println!("verdict: {v:?}");
+            sh.wd.leave();
+            sh.stats.eval();
+            if let Some((class, what)) = v {
+                let sig = format!("C07|layout|P-damage|extra={}|{}|{}", case["extra"].as_str().unwrap_or("?"), case["cause"].as_str().unwrap_or("?"), digits_to_hash(&class));
+                sh.ctx.violation(&sig, &what, case.clone());
+            }
+        }
+        "space" if case["space"].as_str() == Some("P") => {
+            // the whole of space P (development / re-runs after a fix)
+            let pc = PCounts { evals: AtomicU64::new(0), failing: AtomicU64::new(0), damage: AtomicU64::new(0), damage_failing: AtomicU64::new(0) };
+            let t0 = std::time::Instant::now();
+            run_p(sh, lc, &pc, case["tier"].as_str() != Some("thorough"), false, None);
+            println!(
+                "space P: {} renderings ({} failing), {} damaged inputs ({} failing), {:.1}s",
+                pc.evals.load(AO::Relaxed),
+                pc.failing.load(AO::Relaxed),
+                pc.damage.load(AO::Relaxed),
+                pc.damage_failing.load(AO::Relaxed),
+                t0.elapsed().as_secs_f64()
+            );
+        }
+        "layout-chunk" if case["space"].as_str() == Some("P") => {
+            let n = |k: &str| case[k].as_u64().unwrap_or(0) as usize;
+            let pc = PCounts { evals: AtomicU64::new(0), failing: AtomicU64::new(0), damage: AtomicU64::new(0), damage_failing: AtomicU64::new(0) };
+            run_p(sh, lc, &pc, false, true, Some((n("kind_index"), n("form"), n("head"), case["first_group"].as_u64().map(|x| x as usize))));
+        }
         "layout-chunk" => {
             if case["space"].as_str() == Some("L1") {
                 let h: Vec<usize> = case["head"].as_array().map(|a| a.iter().map(|x| x.as_u64().unwrap_or(0) as usize).collect()).unwrap_or_default();
@@ -3381,6 +4097,7 @@ fn main() {
     let sh = Shared { ctx: ctx.clone(), stats: Stats::new(), nontrivial: Mutex::new(Vec::new()), wd };
     let lc = LayoutCounters { renderings: AtomicU64::new(0), inadmissible: AtomicU64::new(0), failing: AtomicU64::new(0) };
     let quick = ctx.quick();
+    let pc = PCounts { evals: AtomicU64::new(0), failing: AtomicU64::new(0), damage: AtomicU64::new(0), damage_failing: AtomicU64::new(0) };
 
     let (byte_len, tok_depth, parsed_tok_depth) = if quick { (5, 5, 3) } else { (6, 6, 4) };
     let byte8_len = if quick { 5 } else { 6 };
@@ -3413,6 +4130,8 @@ fn main() {
             run_l2(&sh, &lc, 3, &[Kind::A, Kind::Txt], false, None);
             lap("layout L2 n=3");
         }
+        run_p(&sh, &lc, &pc, quick, false, None);
+        lap("layout P (groups)");
         let (n, f) = run_limits(&sh, false, None);
         limits_cases = n;
         limits_failing = f;
@@ -3451,13 +4170,19 @@ fn main() {
         json!({
             "evaluations": sh.stats.evals(),
             "distinct_nontrivial": sh.stats.distinct_count(),
-            "rule": "distinct inputs (FNV-1a of the text) that are either a totality case in which the strict reader returned at least one entry from the enumerated body and then had to decide more (a further entry or an error), or a layout rendering in the base style (L1: separator=space,line-end=lf,no sentinel; L2 with <=2 records: all records in plain style), a limits-x-spelling case (L3, all of them), or a zone-route rendering with all record slots canonical; the remaining renderings are counted in evaluations only",
+            "rule": "distinct inputs (FNV-1a of the text) that are either a totality case in which the strict reader returned at least one entry from the enumerated body and then had to decide more (a further entry or an error), or a layout rendering in the base style (L1: separator=space,line-end=lf,no sentinel; L2 with <=2 records: all records in plain style; P: every grouping structure written on one line), a limits-x-spelling case (L3, all of them), or a zone-route rendering with all record slots canonical; the remaining renderings are counted in evaluations only",
             "exhaustive": ctx.replay.is_none(),
             "bounds": {"byte_alphabet": String::from_utf8_lossy(ALPHA), "byte_len": byte_len,
                        "byte8_alphabet_hex": hex(ALPHA8), "byte8_len": byte8_len, "byte8_prefixes": [PREFIXES[0], PREFIXES[1], PREFIXES[3], PREFIXES[4], PREFIXES[5]],
                        "second_reader": "built by hash of the input through load / default+reserve+extend_from_slice x2 / From<&str> / new+BufMut::put_slice, always allow_invalid", "token_menu": TOKENS, "token_depth": tok_depth,
                        "parsed_try_from_depth": {"bytes": 4, "tokens": parsed_tok_depth}, "prefixes_bytes": &PREFIXES[..5], "prefixes_tokens": &PREFIXES[..3],
                        "layout_L1": "3 owners x 10 kinds (A, TXT, SOA, MX, TYPE65280, MX to origin, $INCLUDE, NSEC, NSEC3, SVCB), slots dollar-ttl(2) x owner(5) x class-ttl(5) x data-form(<=6) x separator(3) x continuation(1+4*gaps) x line-end(9) x sentinel(3)",
+                       "layout_P": format!("parenthesised groups (RFC 1035 5.1): file $ORIGIN + context record + record + sentinel; record = 11 kinds (A, TXT, TXT with parentheses inside quoted / \\X / \\DDD strings, SOA, MX, TYPE65280 generic, $INCLUDE, NSEC, NSEC3, SVCB, MX to @) in 1-3 data forms x head (inherited owner + class + TTL, owner + TTL + class, owner only); structure = every family of <= {} groups '(' before token i .. ')' before token j (i = j: empty group) that are pairwise disjoint or nested (depth <= 3), i from the first boundary after the owner field / the leading blank (so also before class, TTL and type) to the boundary after the last token{}; filling = one line | no white space next to any parenthesis | every position inside a group filled with each of 7 fillers (lf, comment+lf, blank line, comment line containing ) ( and a quote, crlf, attached comment+lf, tab lf space) | one inside position at a time filled with each of the 7 fillers (three groups: {}){}; oracle: exactly the logical records. Damage: every structure of <= {} groups, on one line and with a line feed at every inside position, one '(' or ')' too many at every position (the neighbouring separator on either side): the reader ends with an error with a position inside the input, does not panic, both construction paths agree, and returns no more entries than logical lines end before the damage (depth counted by the harness)",
+                                           if quick { "3 for entries with <= 8 token boundaries, else 2" } else { "3" },
+                                           "",
+                                           if quick { "lf only" } else { "all 7" },
+                                           if quick { "" } else { " | two inside positions at a time x {lf, comment+lf}^2 for <= 2 groups" },
+                                           if quick { "2 for entries with <= 8 token boundaries, else 1" } else { "2" }),
                        "limits_L3": "label length {1,62,63,64,65} x {plain, one \\DDD / \\X / escaped dot at every octet, all \\DDD} x label {alone,first,middle,last} x {relative,absolute} x {owner, MX exchange, SOA mname, SOA rname, $ORIGIN, $INCLUDE origin}; name wire length {254,255,256} x {4 long labels, 125 one-octet labels} x {relative,absolute} x {plain, all \\DDD, one \\DDD / \\X in first/middle/last label at first/last octet} x {owner, MX exchange, $ORIGIN, $INCLUDE origin}; character string length {0,1,254,255,256} x {unquoted, quoted} x {plain, all \\DDD, one \\DDD / \\X / space / escaped quote at every octet} x {TXT only/first/second string, HINFO cpu/os}; integers {0,max-1,max,max+1,max+10,next power of ten,10*max(,99999999999)} x {plain, 1 or 3 leading zeros} x {TTL after/before/without class, $TTL, SOA serial/refresh/retry/expire/minimum, MX preference, SSHFP algorithm/type}; TTL-typed fields use 2^31-1 as the largest value that must be accepted and 2^32 as the smallest that must be rejected",
                        "zone_route_Z": if quick { "SOA + every sequence of <= 2 records from a 10-record menu (apex NS, A, TXT, second A, cut NS, glue A, DS, CNAME, A next to the CNAME, out-of-zone A); renderings SOA owner(2) x style(2), per record owner(3) x class-ttl(2) x style(2); routes try_from and new+set_origin+insert" } else { "SOA + every sequence of <= 3 records from a 10-record menu (apex NS, A, TXT, second A, cut NS, glue A, DS, CNAME, A next to the CNAME, out-of-zone A); renderings SOA owner(2) x style(2), per record owner(3) x class-ttl(2) x style(2); routes try_from and new+set_origin+insert" },
                        "generic_G": if quick { GENERIC_COVERAGE.replace("<K>", "2") } else { GENERIC_COVERAGE.replace("<K>", "3") },
@@ -3469,6 +4194,10 @@ fn main() {
             "zone_route_failing": zone_failing,
             "limits_cases": limits_cases,
             "limits_failing_cases": limits_failing,
+            "paren_group_renderings": pc.evals.load(AO::Relaxed),
+            "paren_group_failing_renderings": pc.failing.load(AO::Relaxed),
+            "paren_damage_cases": pc.damage.load(AO::Relaxed),
+            "paren_damage_failing_cases": pc.damage_failing.load(AO::Relaxed),
             "layout_renderings_parsed": lc.renderings.load(AO::Relaxed),
             "layout_renderings_rejected_by_reference_semantics": lc.inadmissible.load(AO::Relaxed),
             "layout_failing_renderings": lc.failing.load(AO::Relaxed),
@@ -3479,7 +4208,8 @@ fn main() {
         &[
             "inputs are bounded: bytes over a 14-symbol alphabet, token strings over a 26-token menu, layout rewrites from the listed per-slot menus; longer inputs and other octets (e.g. non-ASCII, UTF-8 sequences) are not covered",
             "layout rewrites used are those whose equivalence follows from RFC 1035 5.1 and RFC 2308 4: omitted TTL = $TTL if a $TTL directive precedes, else last explicitly stated TTL; omitted class = last explicitly stated class; blank owner = last stated owner; files whose first record omits the TTL without $TTL, or omits the class, are not part of the relation",
-            "parentheses are always set off by white space in layout renderings; adjacency is exercised only by the totality spaces",
+            "parentheses are set off by white space in the layout renderings of L1, L2, Z and G; space P also writes every grouping without any white space next to the parentheses; a parenthesis before the owner field / a directive name is not part of the relation (RFC 1035 does not say whether the owner field may be grouped)",
+            "space P, damage part: an end of file inside an open group and a ')' without '(' are taken to be errors (RFC 1035 5.1 defines parentheses only as pairs grouping data across line boundaries)",
             "limits: escaped digits in integer fields and quoted domain names are not part of the relation (RFC 1035 does not give them a meaning); TTL values between 2^31 and 2^32-1 are left to the implementation (RFC 2181 section 8)",
             "hang detection is a 120 s wall-clock watchdog per chunk of <=4096 cases",
         ],
